@@ -38,22 +38,6 @@ def export(rep, F, E, tag):
         if not ser:
             return
         ser = ser[0]
-        for nm, fld, want in EXPORT:
-            hits = []
-            for c in f.calls:
-                if c.callee.name != nm:
-                    continue
-                a = [canon(f.sym_operand(x)) for x in c.args]
-                s0 = show(f.sym_operand(c.args[0]))
-                if 'clone(self.data.%s)' % fld in s0:
-                    hits.append((c, a[1:]))
-            if not R.check(len(hits) == 1, 'op|%s(%s)%s' % (nm, fld, tag), 'export: %d calls %s on the exported %s (expected 1)' % (len(hits), nm, fld), f.loc()):
-                continue
-            c, a = hits[0]
-            R.check(a == want, 'operands|%s(%s)%s' % (nm, fld, tag), 'export: %s(%s, %s), expected %s' % (nm, fld, a, want), f.loc(c.sp))
-            # unconditional: on every path that reaches the serialiser
-            R.check(f.dominates(c.bb, ser.bb), 'unconditional|%s(%s)%s' % (nm, fld, tag),
-                    'export: the un-equilibration step %s(%s) is skipped on some path that still serialises the data' % (nm, fld), f.loc(c.sp))
         # exported object is built from clones of the solver data
         ok = False
         for bi, si, st in f.assignments():
